@@ -18,7 +18,8 @@ EXPLANATION = ("Static table analysis of btor2::parse (rustc HIR facts): every o
                "init/next pass two type checks against the state's type. redand/redor/redxor are data-dependent lowerings and are listed as not analysed.")
 ASSUMPTIONS = ["the IR variants mean what expr::eval implements (C06, partially decided)", "baa::BitVecValue::from_str_radix parses the given radix correctly"]
 LEVEL_TEXT = ("Exhaustive sibling-table comparison of the reader's operator lowering (54 operator names) against an oracle stating the btor2 standard, composed with the checked builder contract: decides operator identity, "
-              "operand order (slt/ult/slte/ulte swaps, write/ite/read order), derived-operator negations, attribute token positions and that the declared sort is always enforced - for every operator, including the many no test file uses.")
+              "operand order (slt/ult/slte/ulte swaps, write/ite/read order), derived-operator negations, attribute token positions and that the declared sort is always enforced - for every operator, including the many no test file uses."
+              " The reader's set of names in use is written only through the helper that probes it first (who-may-write).")
 LEVEL_NOTE = "Oracle table = btor2 paper's operator semantics; reductions (redand/redor/redxor) are listed as not analysed; values below the IR are C06's concern."
 TECHNIQUE = "builder-term abstract interpretation of match arms vs. specification oracle table; must-pass-through on the returned value; set/arm agreement"
 
